@@ -1850,6 +1850,18 @@ def _oracle_sra_eval_failure(case):
 
 
 def oracle(case):
+    """Entry point: an exception escaping a scenario that drives the real classes is itself the finding, under its own key."""
+    try:
+        return _oracle(case)
+    except Exception as e:  # noqa: BLE001
+        kind = case.get("kind", "?")
+        head = (case.get("ops") or ["-"])[0].split()
+        where = "/".join(head[1:3]) if len(head) >= 3 else str(case.get("what", "-"))
+        return [(f"C20/scenario-raised/{kind}/{where}/{type(e).__name__}",
+                 f"driving the real code raised {type(e).__name__}: {str(e)[:300]} ({case.get('ops') or case})")]
+
+
+def _oracle(case):
     """Directly from the property statement, on the observed trace of the real code:
     (1) a call succeeds iff the documented life cycle allows it in the state the wrapper was in, otherwise AppStateError;
     (2) a refused call leaves state, cwd, temp files, child and clean-up count unchanged;
@@ -1861,7 +1873,11 @@ def oracle(case):
     if case.get("kind") == "sra-eval-failure":
         return _oracle_sra_eval_failure(case)
     if case.get("kind") == "api":
-        return _oracle_api(case)
+        try:
+            return _oracle_api(case)
+        except Exception as e:  # noqa: BLE001  an exception escaping a scenario on the real classes is the finding itself
+            return [(f"C20/api/{case.get('what')}/{case.get('wrapper', '-')}/raised/{type(e).__name__}",
+                     f"{ {k: v for k, v in case.items() if k != 'kind'} } raised {type(e).__name__}: {str(e)[:300]}")]
     key = json.dumps(case["ops"])
     trace = _TRACE_CACHE.pop(key, None)
     if trace is None:
@@ -2173,6 +2189,24 @@ def cases(rng, tier):
     add(_mk("new clustalo ok 3 prot", ["callbad set_distance_matrix", "callbad set_guide_tree", "start", "join -", "call get_guide_tree"], "setter-validation"))
     add(_mk("new clustalo reorder 4 prot", ["call set_guide_tree", "call set_distance_matrix", "callbad set_guide_tree", "callbad set_distance_matrix",
                                             "start", "callbad set_guide_tree", "join -", "call get_guide_tree"], "setter-validation"))
+    # interplay of setters: every ordered pair (thorough: also triples) of a wrapper's own setters, and own x inherited ones,
+    # on ONE app, followed by a complete run and every result getter (a setter must not change what another one means)
+    import itertools
+    inherited = ["set_exec_dir", "add_additional_options", "set_stdin", "set_arguments"]
+    for wrapper, tool, n in (("clustalo", "reorder", 4), ("muscle3", "ok", 3), ("muscle5", "reorder", 3), ("mafft", "ok", 3)):
+        own = [m for m in METHODS[wrapper] if DOC_ALLOWED[m] == [_C] and m not in METHODS["local"]]
+        getters = ["call " + m for m in METHODS[wrapper] if DOC_ALLOWED[m] == [_J]] + ["call get_command"]
+        combos = [list(p) for p in itertools.permutations(own, 2)]
+        combos += [list(p) for p in itertools.permutations(own, 3)][:(3 if quick else None)]
+        for o in (own or inherited[:1]):
+            for i in (inherited[:2] if quick else inherited):
+                if i != o:
+                    combos += [[o, i], [i, o]]
+        if wrapper == "muscle3":
+            combos += [["setgap -3 -1", "set_exec_dir"], ["set_gap_penalty", "setgap -2"]]
+        for combo in combos:
+            ops = [c if c.startswith("setgap") else "call " + c for c in combo]
+            add(_mk(f"new {wrapper} {tool} {n} prot", ops + ["start", "tick", "join -"] + getters, "setter-interplay"))
     # corrupted output whose per-row symbol-count errors cancel
     for wrapper in ("clustalo", "muscle3", "muscle5", "mafft"):
         add(_mk(f"new {wrapper} garbage_swap {3 if wrapper != 'mafft' else 4} prot", ["start", "tick", "join -", "call get_alignment"], "garbage-swap"))
@@ -2272,6 +2306,11 @@ def corpus():
         {"kind": "regression", "ops": ["new clustalo ok 3 prot", "chdir", "start", "tick", "join -"]},
         {"kind": "regression", "ops": ["new muscle3 ok 3 prot", "setgap -3 -1", "setgap -5 5", "start", "call get_command"]},
         {"kind": "regression", "ops": ["new muscle5 garbage_swap 3 prot", "start", "join -", "call get_alignment"]},
+        # round 5: an input distance matrix AND full_matrix_calculation on one app: the result is the program's matrix
+        {"kind": "regression", "ops": ["new clustalo ok 3 prot", "call set_distance_matrix", "call full_matrix_calculation", "start", "tick",
+                                       "join -", "call get_distance_matrix"]},
+        {"kind": "regression", "ops": ["new clustalo reorder 4 nuc", "call full_matrix_calculation", "call set_distance_matrix",
+                                       "call set_guide_tree", "start", "join -", "call get_distance_matrix", "call get_guide_tree"]},
         # reordered output, custom alphabet
         {"kind": "regression", "ops": ["new muscle3 reorder 4 generic", "start", "tick", "state", "join -", "call get_alignment",
                                        "call get_alignment_order"]},
